@@ -171,6 +171,16 @@ func cmdCheck(args []string) {
 			fr.VC.canaries = append(fr.VC.canaries, o)
 			feas = append(feas, solveJob{fr.VC, o, fr.VC.heap0All()})
 		}
+		for _, ln := range sortedKeys(fr.VC.loopFeas) {
+			for i, l := range fr.VC.loopFeas[ln] {
+				o := &Obligation{Name: fmt.Sprintf("%s#canary:%s.body%d", fr.Key, ln, i+1), Kind: "loopcanary", Fn: fr.Key, lines: l, Goal: tFalse, Modules: map[string]bool{}, Info: ln}
+				for m := range fr.VC.modules {
+					o.Modules[m] = true
+				}
+				fr.VC.loopCanaries = append(fr.VC.loopCanaries, o)
+				feas = append(feas, solveJob{fr.VC, o, fr.VC.heap0All()})
+			}
+		}
 	}
 	tSolve := time.Now()
 	dischargeAll(jobs, work, quickS, fullS, all, 16)
@@ -238,6 +248,9 @@ func cmdCheck(args []string) {
 			}
 			if dead == len(fr.VC.canaries) {
 				violations = append(violations, violation{Obligation: fr.Key + "#vacuity", Reason: "every return path of the function is infeasible under its contract (vacuous proof)", NoInput: true})
+			}
+			for _, ln := range fr.VC.deadLoops() {
+				violations = append(violations, violation{Obligation: fr.Key + "#vacuity:" + ln, Reason: "every path through the body of " + ln + " is infeasible (vacuous loop proof)", NoInput: true})
 			}
 		}
 	}
